@@ -11,6 +11,7 @@ package simrt
 import (
 	"fmt"
 	"hash/fnv"
+	"runtime/debug"
 	"sort"
 	"strings"
 	"sync"
@@ -290,7 +291,7 @@ func GoExit(h *Spawn) {
 	s, g := h.s, h.g
 	if r := recover(); r != nil {
 		if _, ok := r.(abortRun); !ok {
-			s.Fail("panic", fmt.Sprintf("goroutine %s panicked: %v", g.Name, r))
+			s.Fail("panic", fmt.Sprintf("goroutine %s panicked: %v\n%s", g.Name, r, shortStack()))
 		}
 	}
 	s.mu.Lock()
@@ -685,7 +686,7 @@ func (s *Sim) Go(name string, f func()) {
 		defer func() {
 			if r := recover(); r != nil {
 				if _, ok := r.(abortRun); !ok {
-					s.Fail("panic", fmt.Sprintf("client %s panicked: %v", g.Name, r))
+					s.Fail("panic", fmt.Sprintf("client %s panicked: %v\n%s", g.Name, r, shortStack()))
 				}
 			}
 			s.mu.Lock()
@@ -925,6 +926,19 @@ func (s *Sim) BlockedIn(name, sub string) bool {
 	return false
 }
 
+// PredBlockedIn is BlockedIn for use inside a WaitUntil predicate (which S evaluates with
+// the simulator's own lock held): true if some live goroutine whose name contains `name` is
+// blocked inside an operation entered at a site containing `sub`.
+func (s *Sim) PredBlockedIn(name, sub string) bool {
+	for _, g := range s.all {
+		// (S evaluates predicates right after synctest.Wait: a goroutine that is neither parked nor done is durably blocked)
+		if g.state == gRunning && strings.Contains(g.Name, name) && g.inOp != "" && strings.Contains(g.inOp, sub) {
+			return true
+		}
+	}
+	return false
+}
+
 // Dump renders the wait-for picture: every live goroutine, where it is, and lock holders.
 func (s *Sim) Dump() string {
 	s.mu.Lock()
@@ -1058,6 +1072,17 @@ func (s *Sim) StarveOne(name string) { s.starve = name }
 
 // Strategy returns the scheduling strategy of this run.
 func (s *Sim) Strategy() int { return s.cfg.Strategy }
+
+// shortStack renders the frames of the panicking goroutine that belong to kit or harness code.
+func shortStack() string {
+	var b strings.Builder
+	for _, l := range strings.Split(string(debug.Stack()), "\n") {
+		if strings.Contains(l, "/repo/") || strings.Contains(l, "/verif/harness/") {
+			b.WriteString("   " + strings.TrimSpace(l) + "\n")
+		}
+	}
+	return b.String()
+}
 
 func fnv64(x string) uint64 {
 	h := fnv.New64a()
